@@ -444,6 +444,21 @@ def build_corpus():
     add('late_chain_sub', 'late', LSub(4), late=True)
     add('late_chain_all', 'late', [LTop(5), LMid(6), LSub(7)], late=True)
     add('late_mixed', 'late', {'k': [LateLeaf(2), LateBase(3)]}, late=True)
+    # degenerate shapes: empty parts in odd positions
+    add('chainmap_trailing_empty', 'degenerate', collections.ChainMap({'a': 1}, {}))
+    add('chainmap_trailing_empties', 'degenerate', [collections.ChainMap({'a': 1}, {}, {})], dict(width=30))
+    add('chainmap_leading_empty', 'degenerate', collections.ChainMap({}, {'b': 2}))
+    add('chainmap_all_empty', 'degenerate', collections.ChainMap({}, {}))
+    add('deque_maxlen0', 'degenerate', collections.deque([], maxlen=0))
+    add('defaultdict_empty_values', 'degenerate', collections.defaultdict(list, a=[], b=[[]]))
+    add('counter_zero_negative', 'degenerate', collections.Counter({'a': 0, 'b': -2, 'c': 3}))
+    add('ordereddict_empty', 'degenerate', [collections.OrderedDict(), collections.OrderedDict(a=collections.OrderedDict())])
+    add('nested_empties', 'degenerate', {'l': [[], [[]], ()], 'd': {'e': {}}, 's': [set(), frozenset()], 't': ((), ((),))})
+    add('namespace_empty', 'degenerate', [types.SimpleNamespace(), types.SimpleNamespace(inner=types.SimpleNamespace())])
+    add('mproxy_empty', 'degenerate', types.MappingProxyType({}))
+    add('partial_no_args', 'degenerate', functools.partial(len))
+    add('timedelta_zero', 'degenerate', [datetime.timedelta(0), datetime.timedelta(microseconds=1), datetime.timedelta(days=-1)])
+    add('exception_no_args', 'degenerate', [ValueError(), KeyError('k'), OSError(2, 'x')])
     task = Task()
     add('task_owner', 'reentrant', task.owner, idfree=False)
     add('task', 'reentrant', {'t': task}, idfree=False)
